@@ -189,4 +189,120 @@ VARIANTS = [
     V("c20-benign-diff-reordered", "C20", "benign", MI,
       "diff = abs(r_label_s - r_label_e) - abs(q_label_s - q_label_e)",
       "diff = abs(r_label_e - r_label_s) - abs(q_label_e - q_label_s)"),
+
+    # ------------------------------------------------------------------------------------------------ C02
+    V("c02-writer-columns-swapped", "C02", "break", XR,
+      "'QryStartPos': '{:.1f}'.format(row.queryStartPosition), 'QryEndPos': '{:.1f}'.format(row.queryEndPosition), 'RefStartPos'",
+      "'QryEndPos': '{:.1f}'.format(row.queryEndPosition), 'QryStartPos': '{:.1f}'.format(row.queryStartPosition), 'RefStartPos'",
+      expect="C02.1", tests="survive"),
+    V("c02-header-names-swapped", "C02", "break", XR,
+      "'QryLen': 'float', 'RefLen': 'float', 'AlignedRest'", "'RefLen': 'float', 'QryLen': 'float', 'AlignedRest'",
+      expect="C02.1", tests="survive"),
+    V("c02-reflen-from-query", "C02", "break", XR,
+      "'RefLen': '{:.1f}'.format(row.referenceLength)", "'RefLen': '{:.1f}'.format(row.queryLength)",
+      expect="C02.1", tests="survive"),
+    V("c02-column-missing-in-record", "C02", "break", XR,
+      "'AlignedRest': '{}'.format(row.alignedRest), 'LabelChannel': 1,", "'LabelChannel': 1,",
+      expect="C02.1", tests="survive"),
+    V("c02-index-from-zero", "C02", "break", XR,
+      "index=pd.RangeIndex(start=1, stop=len(alignmentResults.rows) + 1)", "index=pd.RangeIndex(start=0, stop=len(alignmentResults.rows))",
+      expect="C02.2", tests="survive"),
+    V("c02-no-index", "C02", "break", XR,
+      " for row in alignmentResults.rows], index=pd.RangeIndex(start=1, stop=len(alignmentResults.rows) + 1))", " for row in alignmentResults.rows])",
+      expect="C02.2", tests="survive"),
+    V("c02-reader-start-end-swapped", "C02", "break", XR,
+      "row['QryStartPos'], row['QryEndPos'], row['RefStartPos']", "row['QryEndPos'], row['QryStartPos'], row['RefStartPos']",
+      expect="C02.1", tests="survive"),
+    V("c02-reverse-not-exchanged", "C02", "break", AR,
+      "queryStartPosition = (firstPair if not reverseStrand else lastPair).query.position", "queryStartPosition = firstPair.query.position",
+      expect="C02.3", tests="survive"),
+    V("c02-forward-exchanged", "C02", "break", AR,
+      "queryEndPosition = (lastPair if not reverseStrand else firstPair).query.position", "queryEndPosition = (firstPair if not reverseStrand else lastPair).query.position",
+      expect="C02.3", tests="kill"),
+    V("c02-ref-end-from-first", "C02", "break", AR,
+      "referenceEndPosition = lastPair.reference.position", "referenceEndPosition = firstPair.reference.position",
+      expect="C02.3", tests="kill"),
+    V("c02-lengths-exchanged", "C02", "break", AL,
+      "query.moleculeId, reference.moleculeId, query.length, reference.length, isReverse)",
+      "query.moleculeId, reference.moleculeId, reference.length, query.length, isReverse)",
+      expect="C02.3", tests="survive"),
+    V("c02-ctor-lengths-exchanged", "C02", "break", AR,
+      "return AlignmentResultRow(segments, queryId, referenceId, queryLength, referenceLength, queryStartPosition",
+      "return AlignmentResultRow(segments, queryId, referenceId, referenceLength, queryLength, queryStartPosition",
+      expect="C02.3", tests="survive"),
+    V("c02-tail-shift-zero", "C02", "break", AR,
+      "return [OpticalMap(self.queryId, self.queryLength, positions2, shift=len(query.positions) - len(positions2))]",
+      "return [OpticalMap(self.queryId, self.queryLength, positions2, shift=0)]",
+      expect="C02.4", tests="survive"),
+    V("c02-fragment-length-of-fragment", "C02", "break", AR,
+      "return [OpticalMap(self.queryId, self.queryLength, positions1, shift=0)]",
+      "return [OpticalMap(self.queryId, positions1[-1] + 1, positions1, shift=0)]",
+      expect="C02.4", tests="survive"),
+    V("c02-shift-from-other-slice", "C02", "break", AR,
+      "shift = len(query.positions) - len(positions)\n", "shift = len(query.positions) - len(positions) + 1\n",
+      expect="C02.4", tests="survive"),
+    V("c02-reverse-drops-shift", "C02", "break", OM,
+      "i = len(self.positions) + self.shift", "i = len(self.positions)",
+      expect="C02.5", tests="survive"),
+    V("c02-forward-drops-shift", "C02", "break", OM,
+      "i = 1 + self.shift", "i = 1", expect="C02.5", tests="survive"),
+    V("c02-mirror-about-length", "C02", "break", OM,
+      "moleculeEndPosition = self.length - 1", "moleculeEndPosition = self.length", expect="C02.5", tests="kill"),
+    V("c02-benign-keyword-ctor", "C02", "benign", AR,
+      "return AlignmentResultRow(segments, queryId, referenceId, queryLength, referenceLength, queryStartPosition, queryEndPosition, referenceStartPosition, referenceEndPosition, reverseStrand, confidence)",
+      "return AlignmentResultRow(segments, queryId=queryId, referenceId=referenceId, referenceLength=referenceLength, queryLength=queryLength, queryStartPosition=queryStartPosition, queryEndPosition=queryEndPosition, referenceStartPosition=referenceStartPosition, referenceEndPosition=referenceEndPosition, reverseStrand=reverseStrand, confidence=confidence)"),
+    V("c02-benign-if-statement", "C02", "benign", AR,
+      "        queryStartPosition = (firstPair if not reverseStrand else lastPair).query.position\n        queryEndPosition = (lastPair if not reverseStrand else firstPair).query.position\n",
+      "        if reverseStrand:\n            queryStartPosition = lastPair.query.position\n            queryEndPosition = firstPair.query.position\n"
+      "        else:\n            queryStartPosition = firstPair.query.position\n            queryEndPosition = lastPair.query.position\n"),
+    V("c02-benign-reorder-both", "C02", "benign", XR,
+      "'QryLen': 'float', 'RefLen': 'float', 'AlignedRest'", "'RefLen': 'float', 'QryLen': 'float', 'AlignedRest'",
+      edits=[{"file": XR, "old": "'QryLen': 'float', 'RefLen': 'float', 'AlignedRest'", "new": "'RefLen': 'float', 'QryLen': 'float', 'AlignedRest'"},
+             {"file": XR, "old": "'QryLen': '{:.1f}'.format(row.queryLength), 'RefLen': '{:.1f}'.format(row.referenceLength),",
+              "new": "'RefLen': '{:.1f}'.format(row.referenceLength), 'QryLen': '{:.1f}'.format(row.queryLength),"}],
+      note="header and record reordered together"),
+    V("c02-benign-shift-as-lower-bound", "C02", "benign", AR,
+      "                    positions = query.positions[query.positions.index(self.queryEndPosition) - 2:]\n                    shift = len(query.positions) - len(positions)\n",
+      "                    cut = query.positions.index(self.queryEndPosition) - 2\n                    positions = query.positions[cut:]\n                    shift = cut\n"),
+    V("c02-benign-range-index", "C02", "benign", XR,
+      "index=pd.RangeIndex(start=1, stop=len(alignmentResults.rows) + 1)", "index=range(1, len(alignmentResults.rows) + 1)"),
+    V("c02-benign-fstring-format", "C02", "benign", XR,
+      "'QryLen': '{:.1f}'.format(row.queryLength)", "'QryLen': f'{row.queryLength:.1f}'"),
+
+    # ------------------------------------------------------------------------------------------------ C18
+    V("c18-pair-order-writer", "C18", "break", XR,
+      "f'({pair.reference.siteId},{pair.query.siteId})'", "f'({pair.query.siteId},{pair.reference.siteId})'",
+      expect="C18.3", tests="survive"),
+    V("c18-sep-comma", "C18", "break", XR,
+      "dataFrame.to_csv(file, sep='\\t', header=False", "dataFrame.to_csv(file, sep=',', header=False",
+      expect="C18.2", tests="survive"),
+    V("c18-pandas-header", "C18", "break", XR,
+      "dataFrame.to_csv(file, sep='\\t', header=False", "dataFrame.to_csv(file, sep='\\t', header=True",
+      expect="C18.2", tests="survive"),
+    V("c18-parse-start-end-swapped", "C18", "break", XR,
+      "row['QryStartPos'], row['QryEndPos'], row['RefStartPos']", "row['QryEndPos'], row['QryStartPos'], row['RefStartPos']",
+      expect="C18.1", tests="survive"),
+    V("c18-pair-separator-writer", "C18", "break", XR,
+      "f'({pair.reference.siteId},{pair.query.siteId})'", "f'({pair.reference.siteId};{pair.query.siteId})'",
+      expect="C18.3", tests="survive"),
+    V("c18-reader-unpack-swapped", "C18", "break", XP,
+      "referenceSiteId, querySiteId = map(lambda siteId: int(siteId), pair.split(','))",
+      "querySiteId, referenceSiteId = map(lambda siteId: int(siteId), pair.split(','))",
+      expect="C18.3", tests="survive"),
+    V("c18-comment-line-without-hash", "C18", "break", XR,
+      "'# XMAP File Version:\\t0.2'", "'XMAP File Version:\\t0.2'", expect="C18.2", tests="survive"),
+    V("c18-header-column-added", "C18", "break", XR,
+      "'AlignedRest': 'string', 'LabelChannel': 'int',", "'AlignedRest': 'string', 'Stretch': 'float', 'LabelChannel': 'int',",
+      expect="C18.1", tests="survive"),
+    V("c18-init-attr-swapped", "C18", "break", BA,
+      "        self.referenceStartPosition = refStart\n        self.referenceEndPosition = refEnd",
+      "        self.referenceStartPosition = refEnd\n        self.referenceEndPosition = refStart",
+      expect="C18.1", tests="survive"),
+    V("c18-zero-record-guard-removed", "C18", "break", XR,
+      "        if alignments.empty:\n            return []\n", "", expect="C18.4", tests="survive"),
+    V("c18-orientation-literal", "C18", "break", XR,
+      "reverseStrand = row['Orientation'] == '-'", "reverseStrand = row['Orientation'] == 'R'", expect="C18.1", tests="survive"),
+    V("c18-benign-lambda-parser", "C18", "benign", XP,
+      "referenceSiteId, querySiteId = map(lambda siteId: int(siteId), pair.split(','))",
+      "referenceSiteId, querySiteId = [int(x) for x in pair.split(',')]"),
 ]
